@@ -311,3 +311,11 @@ pub enum ChangedFileKind {
 }
 
 pub type SourceFileEvent = (SourceEventKind, ChangedFileKind);
+
+#[cfg(feature = "isographlabs_isograph_verif")]
+pub fn verif_categorize_and_filter_events(
+    events: &[DebouncedEvent],
+    config: &CompilerConfig,
+) -> Option<Vec<SourceFileEvent>> {
+    categorize_and_filter_events(events, config)
+}
